@@ -75,6 +75,14 @@ def write():
             names.append(p["part"])
         short = ", ".join(names[:6]) + (f", … ({len(names)} in all)" if len(names) > 6 else "")
         rows.append(f"| {pid} | {short} | {cell(q)} | {cell(th)} |")
+    # every part by name (the table above abbreviates): quick tier, then parts only the thorough tier has
+    rows.append("")
+    rows.append("All parts by name (q = quick tier, t = thorough tier only):")
+    rows.append("")
+    for pid in sorted(store):
+        q = [p["part"] for p in (store[pid].get("quick") or {}).get("parts", [])]
+        th = [p["part"] for p in (store[pid].get("thorough") or {}).get("parts", []) if p["part"] not in q]
+        rows.append(f"* {pid} q: " + ", ".join(f"`{x}`" for x in q) + (" ; t: " + ", ".join(f"`{x}`" for x in th) if th else ""))
     table = "\n".join(rows)
     path = os.path.join(HERE, "DESIGN.md")
     s = open(path).read()
@@ -82,7 +90,7 @@ def write():
     if k != 1:
         sys.exit("ASBUILT markers not found in DESIGN.md")
     open(path, "w").write(new)
-    print("table rewritten:", len(rows) - 2, "rows")
+    print("table rewritten")
 
 
 if __name__ == "__main__":
